@@ -32,6 +32,9 @@ from .core import callee_of, callee_path, strip_refs, strip_payload, show_expr, 
 from .engine import Inconclusive
 from . import extract as ex
 from . import errdisc
+from . import optnorm
+
+INLINE_SAFE = [r"^K2\.(serialises-result|wrapper)$"]     # stated on decision cases (values and conditions), not on which functions are called
 
 PYFILE = "py/jsonlogic_rs/__init__.py"
 
@@ -288,70 +291,144 @@ def check_fn(ctx, f, sp):
         ctx.check(bool(good), "K1.returns-decoded", "%s returns deserializer(native result)" % name, "%s returns %s" % (name, src_name(v)), where=w(r), fn=name, nontrivial=True)
 
 
-def check_native(ctx):
-    facts = ctx.facts("python")
-    py = [b for b in facts.fns() if "python_iface" in b.key and not b.span.get("exp")]
-    ctx.need(py, "python interface functions not found")
-    # inner: fn(&str,&str) -> Result<String,String>; wrapper: returns PyResult
-    inner = [b for b in py if b.kind == "fn" and facts.items[b.key]["inputs"] == ["&str", "&str"]]
-    wrapper = [b for b in py if b.kind == "fn" and "cpython::PyErr" in facts.items[b.key]["output"]]
-    ctx.need(len(inner) == 1 and len(wrapper) == 1, "binding functions not identified (inner %d, wrapper %d)" % (len(inner), len(wrapper)))
-    f, w = inner[0], wrapper[0]
-    lib_apply = [(bi, t) for bi, t in f.calls() if callee_of(t) and callee_of(t).get("key") == "jsonlogic_rs::apply" or (callee_of(t) and callee_of(t)["local"] and facts.items.get(callee_of(t)["key"], {}).get("inputs") == ["&serde_json::Value", "&serde_json::Value"])]
-    ctx.check(len(lib_apply) == 1, "K2.calls-apply-once", "the binding calls the library's apply exactly once", "%d calls" % len(lib_apply), where=f.where(), fn=f.key, nontrivial=True)
-    if len(lib_apply) != 1:
+# ---------------------------------------------------------------------------------------------------------------
+# K2 on the decision cases of the binding (rules/optnorm.py): `?`, match, if-let, early returns and the Result
+# combinators are one table   conditions on the fallible steps  =>  value returned.
+
+def _step_source(e):
+    """The fallible call a value is the success payload of: through references, `?`, map_err and payload
+    projections (not through anything that could supply a value when the step failed)."""
+    for _ in range(24):
+        e = strip_refs(e)
+        if e[0] in ("payload", "payload-err") and len(e) > 2:
+            e = e[2]
+            continue
+        e2 = strip_payload(e)
+        if e2 == e:
+            return e2
+        e = e2
+    return e
+
+
+def _is_lib_apply(facts, e):
+    if e[0] != "call" or not e[1]:
+        return False
+    c = e[1]
+    return c.get("key") == "jsonlogic_rs::apply" or bool(c.get("local") and facts.items.get(c.get("key"), {}).get("inputs") == ["&serde_json::Value", "&serde_json::Value"])
+
+
+def _is_local_helper(facts, e):
+    return e[0] == "call" and bool(e[1]) and bool(e[1].get("local")) and not _is_lib_apply(facts, e)
+
+
+def _mentions_helper(facts, e, but=None):
+    return expr_mentions(e, lambda y: y[0] == "call" and y[1] is not None and _is_local_helper(facts, y) and (but is None or y[1].get("key") != but))
+
+
+def _errish(v):
+    v = strip_refs(v)
+    if v[0] == "agg" and v[1].get("variant") == "Err":
+        return True
+    return v[0] == "call" and bool(v[1]) and "from_residual" in v[1]["path"]
+
+
+def _case_atoms(cs, conds):
+    """[(atom key, source expression, value)] of the conditions that are outcomes of Option/Result-valued steps."""
+    out = []
+    for k, val in conds.items():
+        if k[0] == "variant" and val in ("Ok", "Err", "Some", "None"):
+            out.append((k, (cs.exprs or {}).get(k) or optnorm.SRC_EXPRS.get(k), val))
+    return out
+
+
+def binding_table(ctx, facts, f, py):
+    """The inner binding function read as a decision table."""
+    fk = f.key.split("::", 1)[1]
+    cs = optnorm.decision_cases(facts, f)
+    if cs is None:
+        for cl in ("K2.parse-order", "K2.serialises-result", "K2.parse-errors-propagate"):
+            ctx.unread(cl, fk, "the binding contains a loop or too many paths to be read as a decision table", where=f.where(), fn=f.key)
         return
-    abi, at = lib_apply[0]
 
-    def parsed_param(e):
-        s = strip_payload(e)
-        if s[0] == "call" and s[1] and s[1]["path"] == "serde_json::from_str" and "serde_json::Value" in s[1]["full"]:
-            return strip_refs(s[2][0])
-        return None
+    def step_of(src):
+        """('parse', i) | ('apply',) | ('helper', key) | ('other', shown)"""
+        if src is None:
+            return ("other", "?")
+        x = _step_source(src)
+        if x[0] == "call" and x[1] and x[1]["path"] == "serde_json::from_str":
+            txt = strip_refs(x[2][0])
+            if "serde_json::Value" in (x[1].get("full") or "") and txt in (("arg", 1), ("arg", 2)):
+                return ("parse", txt[1])
+            return ("other", show_expr(x)[:120])
+        if _is_lib_apply(facts, x):
+            return ("apply",)
+        if _is_local_helper(facts, x):
+            return ("helper", x[1].get("key"))
+        return ("other", show_expr(x)[:120])
 
-    p0, p1 = parsed_param(f.trace(at["args"][0])), parsed_param(f.trace(at["args"][1]))
-    ctx.check(p0 == ("arg", 1) and p1 == ("arg", 2), "K2.parse-order", "apply(from_str(value)?, from_str(data)?) — rule first, data second",
-              "the library is called with (%s, %s)" % (show_expr(strip_payload(f.trace(at["args"][0]))), show_expr(strip_payload(f.trace(at["args"][1])))), where=f.where(abi), fn=f.key, nontrivial=True)
-    # result: Value::to_string of apply's Ok payload — `apply(..).map_err(..).map(|v| v.to_string())` or
-    # `match apply(..) { Ok(v) => Ok(v.to_string()), Err(e) => Err(..) }`; every other exit is an error tied to a fallible step
-    r = strip_refs(f.trace(0))
-    cands = [strip_refs(x) for x in r[2]] if r[0] == "phi" else [r]
-    parse_bis = [bi for bi, t in f.calls() if callee_path(t) == "serde_json::from_str"]
-    mentions_call = lambda e, bi_: expr_mentions(e, lambda y: y[0] == "call" and y[3] == bi_ and y[1] is not None)
-    good = False
-    bad_ok = []
-    err_of = set()
-    for c in cands:
-        if c[0] == "call" and c[1] and c[1]["path"] == "std::result::Result::<T, E>::map":
-            src = strip_refs(c[2][0])
-            while src[0] == "call" and src[1] and src[1]["path"] == "std::result::Result::<T, E>::map_err":
-                src = strip_refs(src[2][0])
-            clos = strip_refs(c[2][1])
-            ser = False
-            if clos[0] == "agg" and clos[1].get("agg") == "Closure":
-                cb = facts.body(clos[1]["closure"])
-                rr = strip_refs(cb.trace(0)) if cb else ("?",)
-                ser = rr[0] == "call" and rr[1] and rr[1]["path"].endswith("::to_string") and "serde_json::Value" in rr[1]["full"] and strip_refs(rr[2][0]) == ("arg", 2)
-            if src[0] == "call" and src[3] == abi and ser:
-                good = True
-                err_of.add(abi)
-            else:
-                bad_ok.append(show_expr(c)[:80])
-        elif c[0] == "agg" and c[1].get("variant") == "Ok":
-            v = strip_refs(c[2][0])
-            ser = v[0] == "call" and v[1] and v[1]["path"].endswith("::to_string") and "serde_json::Value" in (v[1].get("full") or "")
-            pay = strip_payload(v[2][0]) if ser and v[2] else None
-            if ser and pay is not None and pay[0] == "call" and pay[3] == abi:
-                good = True
-            else:
-                bad_ok.append(show_expr(c)[:80])
-        elif (c[0] == "agg" and c[1].get("variant") == "Err") or (c[0] == "call" and c[1] and "from_residual" in c[1]["path"]):
-            for bi_ in parse_bis + [abi]:
-                if mentions_call(c, bi_):
-                    err_of.add(bi_)
+    ok_cases, err_cases = [], []
+    for conds, v, path in cs:
+        v = strip_refs(v)
+        atoms = [(k, step_of(src), val) for (k, src, val) in _case_atoms(cs, conds)]
+        failed = [(k, st) for (k, st, val) in atoms if val in ("Err", "None")]
+        napply = sum(1 for ev in path.events if _is_lib_apply(facts, ("call", ev[1], ev[2], ev[3])))
+        if v[0] == "agg" and v[1].get("variant") == "Ok":
+            ok_cases.append((conds, v, path, atoms, failed, napply))
+        elif _errish(v):
+            err_cases.append((conds, v, path, atoms, failed, napply))
         else:
-            bad_ok.append(show_expr(c)[:80])
-    ctx.check(good and not bad_ok, "K2.serialises-result", "the binding returns Value::to_string of apply's Ok payload, and nothing else on success", "the binding's result is %s" % (bad_ok or show_expr(r)[:200]), where=f.where(), fn=f.key, nontrivial=True)
+            ctx.unread("K2.serialises-result", fk, "a way through the binding returns %s, which is neither Ok(..) nor an error" % show_expr(v)[:120], where=f.where(), fn=f.key)
+    # ---- success: Ok(Value::to_string(payload of apply(payload of from_str(arg1), payload of from_str(arg2))))
+    helper_seen = None
+    good_ok = 0
+    for conds, v, path, atoms, failed, napply in ok_cases:
+        if failed:
+            ctx.fail("K2.parse-errors-propagate", "%s|swallowed" % fk, "the binding returns a value although %s failed — the Python caller gets a result instead of ValueError" % ", ".join(sorted({" ".join(map(str, st)) for _, st in failed})), where=f.where(), fn=f.key)
+            continue
+        x = strip_refs(v[2][0]) if v[2] else ("unit",)
+        ser = x[0] == "call" and x[1] and x[1]["path"].endswith("::to_string") and "serde_json::Value" in (x[1].get("full") or "") and x[2]
+        src = _step_source(x[2][0]) if ser else None
+        if not ser or not _is_lib_apply(facts, src):
+            if _mentions_helper(facts, x):
+                helper_seen = helper_seen or "the success value"
+                ctx.unread("K2.serialises-result", fk, "the value returned on success is computed by a helper function: %s" % show_expr(x)[:120], where=f.where(), fn=f.key)
+            else:
+                ctx.fail("K2.serialises-result", fk, "the binding's success value is %s — not Value::to_string of the payload of the library's apply" % show_expr(x)[:200], where=f.where(), fn=f.key)
+            continue
+        ctx.check(napply == 1, "K2.calls-apply-once", "the binding calls the library's apply exactly once on its way to a result", "%d calls of the library's apply on a way to a result" % napply, where=f.where(src[3] if src[3] >= 0 else None), fn=f.key, nontrivial=True)
+        args = [_step_source(a) for a in src[2]]
+        sts = [step_of(a) for a in src[2]]
+        if sts == [("parse", 1), ("parse", 2)]:
+            ctx.ok("K2.parse-order", "apply(from_str::<Value>(value)?, from_str::<Value>(data)?) — rule first, data second", nontrivial=True, sample={"args": [show_expr(a)[:80] for a in args]})
+            ctx.ok("K2.serialises-result", "the binding returns Value::to_string of apply's Ok payload, and nothing else on success", nontrivial=True)
+            good_ok += 1
+        elif any(st[0] == "helper" for st in sts):
+            ctx.unread("K2.parse-order", fk, "an argument of the library call is produced by the helper function %s" % [st[1] for st in sts if st[0] == "helper"][0], where=f.where(), fn=f.key)
+        else:
+            ctx.fail("K2.parse-order", fk, "the library is called with (%s, %s) — not with serde_json::from_str::<Value> of the whole first and second argument, in this order" % (show_expr(args[0])[:160], show_expr(args[1])[:160]) if len(args) == 2 else "the library is called with %d arguments" % len(args), where=f.where(), fn=f.key)
+    if not ok_cases:
+        ctx.fail("K2.serialises-result", fk, "no way through the binding returns Ok(..)", where=f.where(), fn=f.key)
+    # ---- failure: every error exit belongs to a failed step; every step has one
+    have = set()
+    for conds, v, path, atoms, failed, napply in err_cases:
+        if not failed:
+            others = [k for k in conds if k[0] != "variant"]
+            if others and not any(st[0] == "helper" for _, st, _v in atoms):
+                ctx.fail("K2.parse-errors-propagate", "%s|extra-error" % fk, "the binding fails on a way on which no parse and no evaluation failed (decided by %s): inputs the library accepts raise ValueError" % ", ".join(str(k[0]) + ":" + str(k[1])[:60] for k in others[:3]), where=f.where(), fn=f.key)
+            else:
+                ctx.unread("K2.parse-errors-propagate", "%s|extra-error" % fk, "an error exit whose cause could not be read", where=f.where(), fn=f.key)
+            continue
+        for k, st in failed:
+            have.add(st)
+    unread_helpers = sorted({st[1] for c in ok_cases + err_cases for (_k, st, _v) in c[3] if st[0] == "helper"})
+    want = [("parse", 1), ("parse", 2), ("apply",)]
+    missing = [st for st in want if st not in have]
+    if not missing:
+        ctx.ok("K2.parse-errors-propagate", "the two parse errors and the library's error each have their own error exit (`?` or an Err arm), and there is no other", nontrivial=True)
+    elif unread_helpers:
+        ctx.unread("K2.parse-errors-propagate", fk, "fallible steps are inside the helper function(s) %s" % ", ".join(unread_helpers), where=f.where(), fn=f.key)
+    else:
+        ctx.fail("K2.parse-errors-propagate", fk, "no error exit for the failure of: %s (error exits found for %s)" % (", ".join(" ".join(map(str, st)) for st in missing), sorted(" ".join(map(str, st)) for st in have)), where=f.where(), fn=f.key)
     # errors: no dropper on any Result in the python interface
     droppers = []
     for b in py:
@@ -363,15 +440,73 @@ def check_native(ctx):
         ctx.fail("K2.error-dropped", "%s@%s" % (b.key.split("::", 1)[1], p.rsplit("::", 1)[1]), "the binding discards an error with %s — malformed input or a library error would surface as a value" % p, where=b.where(bi), fn=b.key)
     if not droppers:
         ctx.ok("K2.error-dropped", "no Result is discarded in the binding", nontrivial=True)
-    ctx.check(len(parse_bis) == 2 and all(bi_ in err_of for bi_ in parse_bis) and abi in err_of, "K2.parse-errors-propagate", "the two parse errors and the library's error each have their own error exit (`?` or an Err arm)",
-              "error exits found for calls at blocks %s of the fallible steps %s" % (sorted(err_of), parse_bis + [abi]), where=f.where(), fn=f.key, nontrivial=True)
-    # wrapper: map_err(inner(value,data), |e| PyErr::new::<ValueError,_>)
-    r = strip_refs(w.trace(0))
-    good = r[0] == "call" and r[1] and r[1]["path"] == "std::result::Result::<T, E>::map_err"
-    if good:
-        src = strip_refs(r[2][0])
-        good = src[0] == "call" and src[1].get("key") == f.key and [strip_refs(a) for a in src[2]] == [("arg", 2), ("arg", 3)]
-    ctx.check(bool(good), "K2.wrapper", "the PyResult wrapper is inner(value, data).map_err(→ exception)", "wrapper result: %s" % show_expr(r), where=w.where(), fn=w.key, nontrivial=True)
+
+
+def wrapper_table(ctx, facts, f, w):
+    """The PyResult wrapper: Ok(payload of inner(value, data)) | Err(exception) exactly when inner failed."""
+    wk = w.key.split("::", 1)[1]
+    cs = optnorm.decision_cases(facts, w)
+    if cs is None:
+        ctx.unread("K2.wrapper", wk, "the wrapper contains a loop or too many paths", where=w.where(), fn=w.key)
+        return
+
+    def is_inner(e):
+        x = _step_source(e)
+        return x[0] == "call" and x[1] and x[1].get("key") == f.key and [strip_refs(a) for a in x[2]] == [("arg", 2), ("arg", 3)]
+    n_ok = n_err = 0
+    bad = []
+    unread = []
+    for conds, v, path in cs:
+        v = strip_refs(v)
+        atoms = _case_atoms(cs, conds)
+        failed = [src for (k, src, val) in atoms if val in ("Err", "None")]
+        foreign = [src for (k, src, val) in atoms if src is None or not is_inner(src)]
+        if foreign:
+            (unread if any(s_ is not None and _mentions_helper(facts, s_, but=f.key) for s_ in foreign) else bad).append("the wrapper decides on %s" % show_expr(foreign[0])[:100] if foreign[0] is not None else "a step that was not read")
+            continue
+        if v[0] == "agg" and v[1].get("variant") == "Ok":
+            if failed:
+                bad.append("Ok(..) is returned although the binding failed")
+            elif v[2] and is_inner(v[2][0]) and strip_refs(v[2][0])[0] in ("payload", "field"):
+                n_ok += 1
+            elif v[2] and _mentions_helper(facts, v[2][0], but=f.key):
+                unread.append("success value %s" % show_expr(v)[:100])
+            else:
+                bad.append("on success the wrapper returns %s, not the binding's text" % show_expr(v)[:120])
+        elif _errish(v):
+            if failed:
+                n_err += 1
+            else:
+                bad.append("an exception is raised although the binding succeeded")
+        else:
+            x = _step_source(v)
+            if not atoms and x[0] == "call" and x[1] and x[1].get("key") == f.key:
+                bad.append("the wrapper returns the binding's Result unconverted")
+            else:
+                unread.append("result %s" % show_expr(v)[:100])
+    if bad:
+        ctx.fail("K2.wrapper", wk, "; ".join(bad[:3]), where=w.where(), fn=w.key)
+    elif unread:
+        ctx.unread("K2.wrapper", wk, "; ".join(unread[:3]), where=w.where(), fn=w.key)
+    else:
+        ctx.check(n_ok >= 1 and n_err >= 1, "K2.wrapper", "the PyResult wrapper returns inner(value, data)'s text on Ok and raises on Err — nothing else", "wrapper cases: %d success, %d failure" % (n_ok, n_err), where=w.where(), fn=w.key, nontrivial=True)
+
+
+
+def check_native(ctx):
+    facts = ctx.facts("python")
+    py = [b for b in facts.fns() if "python_iface" in b.key and not b.span.get("exp")]
+    ctx.need(py, "python interface functions not found")
+    # inner: fn(&str,&str) -> Result<String,String>; wrapper: returns PyResult
+    wrapper = [b for b in py if b.kind == "fn" and "cpython::PyErr" in facts.items[b.key]["output"]]
+    inner = [b for b in py if b.kind == "fn" and facts.items[b.key]["inputs"] == ["&str", "&str"]]
+    if len(inner) > 1 and len(wrapper) == 1:      # several (&str, &str) functions: the one the PyResult wrapper calls
+        cg0, _ = facts.callgraph()
+        inner = [b for b in inner if b.key in cg0.get(wrapper[0].key, ())] or inner
+    ctx.need(len(inner) == 1 and len(wrapper) == 1, "binding functions not identified (inner %d, wrapper %d)" % (len(inner), len(wrapper)))
+    f, w = inner[0], wrapper[0]
+    binding_table(ctx, facts, f, py)
+    wrapper_table(ctx, facts, f, w)
     ctors = []
     for b in py:
         for bi, t in b.calls():
